@@ -108,20 +108,6 @@ open Tree
 open Nstd.Avl.Heap
 open Nstd.Generated.AvlRot
 
-theorem removeTail_pos (h : Heap) (X : Nat) (h0 : h.prev X ≠ 0) : Map.removeTail h X =
-    (((((h.setNext (h.prev X) (h.next X)).setPrev (h.next X) (h.prev X)).setSize (h.size - 1)).setPrev X h.freeItem).setFree X,
-     ((((h.setNext (h.prev X) (h.next X)).setPrev (h.next X) (h.prev X)).setSize (h.size - 1)).setPrev X h.freeItem).setFree X |>.next X) := by
-  unfold Map.removeTail
-  simp only [if_pos h0]
-  rfl
-
-theorem removeTail_neg (h : Heap) (X : Nat) (h0 : ¬ h.prev X ≠ 0) : Map.removeTail h X =
-    (((((h.setBegin (h.next X)).setPrev (h.next X) 0).setSize (h.size - 1)).setPrev X h.freeItem).setFree X,
-     ((((h.setBegin (h.next X)).setPrev (h.next X) 0).setSize (h.size - 1)).setPrev X h.freeItem).setFree X |>.next X) := by
-  unfold Map.removeTail
-  simp only [if_neg h0]
-  rfl
-
 /-- what `removeTail` stores -/
 structure TailOf (h h' : Heap) (X : Nat) : Prop where
   endItem : h'.endItem = h.endItem
@@ -141,63 +127,119 @@ structure TailOf (h h' : Heap) (X : Nat) : Prop where
   slope : h'.slope = h.slope
   root : h'.root = h.root
 
-theorem tailOf_pos (h : Heap) (X : Nat) (h0 : h.prev X ≠ 0) :
-    TailOf h (((((h.setNext (h.prev X) (h.next X)).setPrev (h.next X) (h.prev X)).setSize (h.size - 1)).setPrev X h.freeItem).setFree X) X := by
-  refine ⟨?_, ?_, ?_, ?_, ?_, ?_, ?_, ?_, ?_, ?_, ?_, ?_, ?_, ?_, ?_, ?_⟩
-  · simp only [Heap.setFree, Heap.setPrev, Heap.setSize, Heap.setNext, Heap.setBegin]
-  · intro a ha
-    simp only [Heap.setFree, Heap.setPrev, Heap.setSize, Heap.setNext, upd1_apply, h0, ne_eq, not_false_eq_true, true_and]
-  · intro a ha
-    simp only [Heap.setFree, Heap.setPrev, Heap.setSize, Heap.setNext, upd1_apply, ha, if_false]
-  · simp only [Heap.setFree, Heap.setPrev, Heap.setSize, Heap.setNext, upd1_apply, if_true]
-  · simp only [Heap.setFree, Heap.setPrev, Heap.setSize, Heap.setNext, Heap.setBegin]
-  · simp only [Heap.setFree, Heap.setPrev, Heap.setSize, Heap.setNext, Heap.setBegin]
-  · simp only [Heap.setFree, Heap.setPrev, Heap.setSize, Heap.setNext, Heap.setBegin]
-  · simp only [Heap.setFree, Heap.setPrev, Heap.setSize, Heap.setNext, if_pos h0]
-  · simp only [Heap.setFree, Heap.setPrev, Heap.setSize, Heap.setNext, Heap.setBegin]
-  · simp only [Heap.setFree, Heap.setPrev, Heap.setSize, Heap.setNext, Heap.setBegin]
-  · simp only [Heap.setFree, Heap.setPrev, Heap.setSize, Heap.setNext, Heap.setBegin]
-  · simp only [Heap.setFree, Heap.setPrev, Heap.setSize, Heap.setNext, Heap.setBegin]
-  · simp only [Heap.setFree, Heap.setPrev, Heap.setSize, Heap.setNext, Heap.setBegin]
-  · simp only [Heap.setFree, Heap.setPrev, Heap.setSize, Heap.setNext, Heap.setBegin]
-  · simp only [Heap.setFree, Heap.setPrev, Heap.setSize, Heap.setNext, Heap.setBegin]
-  · simp only [Heap.setFree, Heap.setPrev, Heap.setSize, Heap.setNext, Heap.setBegin]
+theorem removeTail_key (h : Heap) (X : Nat) : (Map.removeTail h X).1.key = h.key := by
+  unfold Map.removeTail
+  simp only []
+  split <;> simp only [Heap.setFree, Heap.setPrev, Heap.setSize, Heap.setNext, Heap.setBegin]
 
-theorem tailOf_neg (h : Heap) (X : Nat) (h0 : ¬ h.prev X ≠ 0) :
-    TailOf h (((((h.setBegin (h.next X)).setPrev (h.next X) 0).setSize (h.size - 1)).setPrev X h.freeItem).setFree X) X := by
-  have h0' : h.prev X = 0 := by omega
-  refine ⟨?_, ?_, ?_, ?_, ?_, ?_, ?_, ?_, ?_, ?_, ?_, ?_, ?_, ?_, ?_, ?_⟩
-  · simp only [Heap.setFree, Heap.setPrev, Heap.setSize, Heap.setNext, Heap.setBegin]
-  · intro a ha
-    simp only [Heap.setFree, Heap.setPrev, Heap.setSize, Heap.setBegin, h0', ne_eq, not_true_eq_false, false_and, if_false]
-  · intro a ha
-    simp only [Heap.setFree, Heap.setPrev, Heap.setSize, Heap.setBegin, upd1_apply, ha, if_false, h0']
-  · simp only [Heap.setFree, Heap.setPrev, Heap.setSize, Heap.setBegin, upd1_apply, if_true]
-  · simp only [Heap.setFree, Heap.setPrev, Heap.setSize, Heap.setNext, Heap.setBegin]
-  · simp only [Heap.setFree, Heap.setPrev, Heap.setSize, Heap.setNext, Heap.setBegin]
-  · simp only [Heap.setFree, Heap.setPrev, Heap.setSize, Heap.setNext, Heap.setBegin]
-  · simp only [Heap.setFree, Heap.setPrev, Heap.setSize, Heap.setBegin, if_neg h0]
-  · simp only [Heap.setFree, Heap.setPrev, Heap.setSize, Heap.setNext, Heap.setBegin]
-  · simp only [Heap.setFree, Heap.setPrev, Heap.setSize, Heap.setNext, Heap.setBegin]
-  · simp only [Heap.setFree, Heap.setPrev, Heap.setSize, Heap.setNext, Heap.setBegin]
-  · simp only [Heap.setFree, Heap.setPrev, Heap.setSize, Heap.setNext, Heap.setBegin]
-  · simp only [Heap.setFree, Heap.setPrev, Heap.setSize, Heap.setNext, Heap.setBegin]
-  · simp only [Heap.setFree, Heap.setPrev, Heap.setSize, Heap.setNext, Heap.setBegin]
-  · simp only [Heap.setFree, Heap.setPrev, Heap.setSize, Heap.setNext, Heap.setBegin]
-  · simp only [Heap.setFree, Heap.setPrev, Heap.setSize, Heap.setNext, Heap.setBegin]
+theorem removeTail_value (h : Heap) (X : Nat) : (Map.removeTail h X).1.value = h.value := by
+  unfold Map.removeTail
+  simp only []
+  split <;> simp only [Heap.setFree, Heap.setPrev, Heap.setSize, Heap.setNext, Heap.setBegin]
+
+theorem removeTail_parent (h : Heap) (X : Nat) : (Map.removeTail h X).1.parent = h.parent := by
+  unfold Map.removeTail
+  simp only []
+  split <;> simp only [Heap.setFree, Heap.setPrev, Heap.setSize, Heap.setNext, Heap.setBegin]
+
+theorem removeTail_left (h : Heap) (X : Nat) : (Map.removeTail h X).1.left = h.left := by
+  unfold Map.removeTail
+  simp only []
+  split <;> simp only [Heap.setFree, Heap.setPrev, Heap.setSize, Heap.setNext, Heap.setBegin]
+
+theorem removeTail_right (h : Heap) (X : Nat) : (Map.removeTail h X).1.right = h.right := by
+  unfold Map.removeTail
+  simp only []
+  split <;> simp only [Heap.setFree, Heap.setPrev, Heap.setSize, Heap.setNext, Heap.setBegin]
+
+theorem removeTail_height (h : Heap) (X : Nat) : (Map.removeTail h X).1.height = h.height := by
+  unfold Map.removeTail
+  simp only []
+  split <;> simp only [Heap.setFree, Heap.setPrev, Heap.setSize, Heap.setNext, Heap.setBegin]
+
+theorem removeTail_slope (h : Heap) (X : Nat) : (Map.removeTail h X).1.slope = h.slope := by
+  unfold Map.removeTail
+  simp only []
+  split <;> simp only [Heap.setFree, Heap.setPrev, Heap.setSize, Heap.setNext, Heap.setBegin]
+
+theorem removeTail_root (h : Heap) (X : Nat) : (Map.removeTail h X).1.root = h.root := by
+  unfold Map.removeTail
+  simp only []
+  split <;> simp only [Heap.setFree, Heap.setPrev, Heap.setSize, Heap.setNext, Heap.setBegin]
+
+theorem removeTail_endItem (h : Heap) (X : Nat) : (Map.removeTail h X).1.endItem = h.endItem := by
+  unfold Map.removeTail
+  simp only []
+  split <;> simp only [Heap.setFree, Heap.setPrev, Heap.setSize, Heap.setNext, Heap.setBegin]
+
+theorem removeTail_nblocks (h : Heap) (X : Nat) : (Map.removeTail h X).1.nblocks = h.nblocks := by
+  unfold Map.removeTail
+  simp only []
+  split <;> simp only [Heap.setFree, Heap.setPrev, Heap.setSize, Heap.setNext, Heap.setBegin]
+
+theorem removeTail_freeItem (h : Heap) (X : Nat) : (Map.removeTail h X).1.freeItem = X := by
+  unfold Map.removeTail
+  simp only []
+  split <;> simp only [Heap.setFree, Heap.setPrev, Heap.setSize, Heap.setNext, Heap.setBegin]
+
+theorem removeTail_size (h : Heap) (X : Nat) : (Map.removeTail h X).1.size = h.size - 1 := by
+  unfold Map.removeTail
+  simp only []
+  split <;> simp only [Heap.setFree, Heap.setPrev, Heap.setSize, Heap.setNext, Heap.setBegin]
+
+theorem removeTail_prevX (h : Heap) (X : Nat) : (Map.removeTail h X).1.prev X = h.freeItem := by
+  unfold Map.removeTail
+  simp only []
+  split <;> simp only [Heap.setFree, Heap.setPrev, Heap.setSize, Heap.setNext, Heap.setBegin, upd1_apply, if_true]
+
+theorem removeTail_beginItem (h : Heap) (X : Nat) :
+    (Map.removeTail h X).1.beginItem = (if h.prev X ≠ 0 then h.beginItem else h.next X) := by
+  unfold Map.removeTail
+  simp only []
+  by_cases h0 : h.prev X ≠ 0
+  · rw [if_pos h0, if_pos h0] <;>
+    simp only [Heap.setFree, Heap.setPrev, Heap.setSize, Heap.setNext, Heap.setBegin]
+  · rw [if_neg h0, if_neg h0] <;>
+    simp only [Heap.setFree, Heap.setPrev, Heap.setSize, Heap.setNext, Heap.setBegin]
+
+theorem removeTail_next (h : Heap) (X : Nat) : ∀ a, a ≠ X →
+    (Map.removeTail h X).1.next a = if (h.prev X ≠ 0 ∧ a = h.prev X) then h.next X else h.next a := by
+  intro a ha
+  unfold Map.removeTail
+  simp only []
+  by_cases h0 : h.prev X ≠ 0
+  · rw [if_pos h0] <;>
+    simp only [Heap.setFree, Heap.setPrev, Heap.setSize, Heap.setNext, Heap.setBegin, upd1_apply, h0, ne_eq,
+      not_false_eq_true, true_and]
+  · rw [if_neg h0] <;>
+    simp only [Heap.setFree, Heap.setPrev, Heap.setSize, Heap.setNext, Heap.setBegin, h0, false_and, if_false]
+
+theorem removeTail_prev (h : Heap) (X : Nat) : ∀ a, a ≠ X →
+    (Map.removeTail h X).1.prev a = if a = h.next X then h.prev X else h.prev a := by
+  intro a ha
+  unfold Map.removeTail
+  simp only []
+  by_cases h0 : h.prev X ≠ 0
+  · rw [if_pos h0] <;>
+    simp only [Heap.setFree, Heap.setPrev, Heap.setSize, Heap.setNext, Heap.setBegin, upd1_apply, ha, if_false]
+  · have h0' : h.prev X = 0 := by omega
+    rw [if_neg h0] <;>
+    simp only [Heap.setFree, Heap.setPrev, Heap.setSize, Heap.setNext, Heap.setBegin, upd1_apply, ha, if_false, h0']
 
 theorem removeTail_snd (h : Heap) (X : Nat) (hX : X ≠ h.prev X) : (Map.removeTail h X).2 = h.next X := by
+  unfold Map.removeTail
+  simp only []
   by_cases h0 : h.prev X ≠ 0
-  · rw [removeTail_pos h X h0]
-    show upd1 h.next (h.prev X) (h.next X) X = h.next X
-    rw [upd1_ne _ _ _ _ hX]
-  · rw [removeTail_neg h X h0]; rfl
+  · rw [if_pos h0] <;>
+    simp only [Heap.setFree, Heap.setPrev, Heap.setSize, Heap.setNext, Heap.setBegin, upd1_apply, hX, if_false]
+  · rw [if_neg h0] <;>
+    simp only [Heap.setFree, Heap.setPrev, Heap.setSize, Heap.setNext, Heap.setBegin]
 
 theorem removeTail_fields (h : Heap) (X : Nat) (hX : X ≠ h.prev X) :
-    TailOf h (Map.removeTail h X).1 X ∧ (Map.removeTail h X).2 = h.next X := by
-  refine ⟨?_, removeTail_snd h X hX⟩
-  by_cases h0 : h.prev X ≠ 0
-  · rw [removeTail_pos h X h0]; exact tailOf_pos h X h0
-  · rw [removeTail_neg h X h0]; exact tailOf_neg h X h0
+    TailOf h (Map.removeTail h X).1 X ∧ (Map.removeTail h X).2 = h.next X :=
+  ⟨⟨removeTail_endItem h X, removeTail_next h X, removeTail_prev h X, removeTail_prevX h X, removeTail_freeItem h X,
+    removeTail_size h X, removeTail_nblocks h X, removeTail_beginItem h X, removeTail_key h X, removeTail_value h X,
+    removeTail_parent h X, removeTail_left h X, removeTail_right h X, removeTail_height h X, removeTail_slope h X,
+    removeTail_root h X⟩, removeTail_snd h X hX⟩
 
 end Nstd.Avl
